@@ -12,7 +12,7 @@
   argument list of `compute_function_aligned`; `obsA` is what is observed of each, `Inv anyFP h live`
   says that the live objects are well formed and separated.
 -/
-import Ladybug.Proofs.C14Any
+import Ladybug.Proofs.C14Comp
 
 namespace LbHeap
 
@@ -105,6 +105,55 @@ theorem C14_copying_separated {h : Heap} {live : List Nat} (inv : Inv anyFP h li
   ⟨(fresh_inv anyFP inv (live_lt inv) (freshA_of_coll fr)).1, fr.self_new,
    (fresh_inv anyFP inv (live_lt inv) (freshA_of_coll fr)).2⟩
 
+/-! ### Wea -/
+
+/-- **Wea constructors and derivations (fixed code).**  `Wea.from_dict` (and the other constructors that
+    build their own collections), `Wea.duplicate()` and `Wea.filter_by_*` return a Wea that is separated
+    from everything that exists – its two collections have their own headers and metadata dicts (they
+    share one AnalysisPeriod object and, for the filters, look at the same Location: neither is edited by
+    any modelled operation) – and leave every live object as it was. -/
+theorem C14_wea_fresh_separated {h h' : Heap} {live : List Nat} {w : Nat} (inv : Inv anyFP h live)
+    (fr : Fresh anyFP h h' w) :
+    Inv anyFP h' (live ++ [w]) ∧ (∀ b ∈ live, obsA h' b = obsA h b) ∧ h.next ≤ w :=
+  ⟨(fresh_inv anyFP inv (live_lt inv) fr).1, (fresh_inv anyFP inv (live_lt inv) fr).2, fr.self_new⟩
+
+theorem C14_wea_new {h h' : Heap} {live : List Nat} {w : Nat} (inv : Inv anyFP h live)
+    {loc : List MV} {tags ap dts : List Nat} {dni dhi : List Rat} {cont : Bool}
+    (e : weaNew h loc tags ap dts dni dhi cont = .ok (h', w)) :
+    Inv anyFP h' (live ++ [w]) ∧ (∀ b ∈ live, obsA h' b = obsA h b) ∧ h.next ≤ w :=
+  C14_wea_fresh_separated inv (weaNew_fresh inv.1 e)
+
+theorem C14_wea_duplicate {h h' : Heap} {live : List Nat} {w w' : Nat} (inv : Inv anyFP h live)
+    (e : weaDup h w = .ok (h', w')) :
+    Inv anyFP h' (live ++ [w']) ∧ (∀ b ∈ live, obsA h' b = obsA h b) ∧ h.next ≤ w' :=
+  C14_wea_fresh_separated inv (weaDup_fresh inv.1 e)
+
+theorem C14_wea_filter {h h' : Heap} {live : List Nat} {w w' : Nat} {op : DOp} (inv : Inv anyFP h live)
+    (e : weaFilter h w op = .ok (h', w')) :
+    Inv anyFP h' (live ++ [w']) ∧ (∀ b ∈ live, obsA h' b = obsA h b) ∧ h.next ≤ w' :=
+  C14_wea_fresh_separated inv (weaFilter_fresh inv.1 e)
+
+/-- A collection derived from a Wea (`global_horizontal_irradiance`, `direct_horizontal_irradiance`, each
+    of the four results of `directional_irradiance`, …) has its own header and a deep copy of the Wea's
+    metadata (a395d2d, 69061a8): it is separated from the Wea and from everything else. -/
+theorem C14_wea_derived {h h' : Heap} {live : List Nat} {w r dt : Nat} {sh : Bool} {vals : List Rat}
+    (inv : Inv anyFP h live) (e : weaDerived h w dt sh vals = .ok (h', r)) :
+    Inv anyFP h' (live ++ [r]) ∧ (∀ b ∈ live, obsA h' b = obsA h b) ∧ h.next ≤ r :=
+  C14_wea_fresh_separated inv (freshA_of_coll (weaDerived_fresh inv.1 e))
+
+/-- **Frame for composite objects.**  A mutator applied to one of the two collections of a Wea
+    (`wea.direct_normal_irradiance.convert_to_unit(..)`, `…[i] = x`, metadata edits, …) or an edit of
+    `wea.metadata` changes nothing outside that Wea. -/
+theorem C14_frame_member {h h' : Heap} {live : List Nat} {w i : Nat} {op : MOp}
+    (inv : Inv anyFP h live) (hw : w ∈ live) (e : compMember h w i op = .ok h') :
+    Inv anyFP h' live ∧ ∀ b ∈ live, b ≠ w → obsA h' b = obsA h b :=
+  local_inv anyFP inv hw (compMember_local inv.1 (inv.2.1 w hw) e)
+
+theorem C14_frame_comp_metadata {h h' : Heap} {live : List Nat} {w k : Nat} {v : MV}
+    (inv : Inv anyFP h live) (hw : w ∈ live) (e : compMetaSet h w k v = .ok h') :
+    Inv anyFP h' live ∧ ∀ b ∈ live, b ≠ w → obsA h' b = obsA h b :=
+  local_inv anyFP inv hw (compMetaSet_local inv.1 (inv.2.1 w hw) e)
+
 theorem build_copying (h : Heap) (cls : Cls) (mt vd : Bool) (dt u : Nat) (ap : List Nat)
     (md : List (Nat × OV)) (dts : List Nat) (vals : List Rat) :
     NewSpec.Copying h ⟨.new dt u (.new ap) (.new md), newVals mt vals, dts, mt, cls, vd⟩ := by
@@ -184,6 +233,17 @@ inductive Step
   | newArgs (l : List Operand)
   /-- the caller edits his list `live[i]` -/
   | listMut (i : Nat) (op : LOp)
+  /-- `Wea.from_dict(..)`: a Wea that builds its own collections -/
+  | weaNew (loc : List MV) (tags ap dts : List Nat) (dni dhi : List Rat) (cont : Bool)
+  | weaDup (i : Nat)
+  /-- `wea.filter_by_*` (the same collection filter on both collections) -/
+  | weaFilter (i : Nat) (op : DOp)
+  /-- a collection derived from Wea `live[i]` -/
+  | weaDerived (i : Nat) (dt : Nat) (shareAp : Bool) (vals : List Rat)
+  /-- a mutator on collection number `k` of composite `live[i]` -/
+  | compMember (i k : Nat) (op : MOp)
+  /-- `live[i].metadata[k] = v` -/
+  | compMetaSet (i k : Nat) (v : MV)
 
 structure St where
   h : Heap
@@ -230,6 +290,45 @@ def step (st : St) : Step → St
       match mutList st.h c op with
       | .ok h' => ⟨h', st.live⟩
       | .error _ => st
+  | .weaNew loc tags ap dts dni dhi cont =>
+    match weaNew st.h loc tags ap dts dni dhi cont with
+    | .ok (h', r) => ⟨h', st.live ++ [r]⟩
+    | .error _ => st
+  | .weaDup i =>
+    match st.live[i]? with
+    | none => st
+    | some c =>
+      match weaDup st.h c with
+      | .ok (h', r) => ⟨h', st.live ++ [r]⟩
+      | .error _ => st
+  | .weaFilter i op =>
+    match st.live[i]? with
+    | none => st
+    | some c =>
+      match weaFilter st.h c op with
+      | .ok (h', r) => ⟨h', st.live ++ [r]⟩
+      | .error _ => st
+  | .weaDerived i dt sh vals =>
+    match st.live[i]? with
+    | none => st
+    | some c =>
+      match weaDerived st.h c dt sh vals with
+      | .ok (h', r) => ⟨h', st.live ++ [r]⟩
+      | .error _ => st
+  | .compMember i k op =>
+    match st.live[i]? with
+    | none => st
+    | some c =>
+      match compMember st.h c k op with
+      | .ok h' => ⟨h', st.live⟩
+      | .error _ => st
+  | .compMetaSet i k v =>
+    match st.live[i]? with
+    | none => st
+    | some c =>
+      match compMetaSet st.h c k v with
+      | .ok h' => ⟨h', st.live⟩
+      | .error _ => st
 
 def run (st : St) (l : List Step) : St := l.foldl step st
 
@@ -237,6 +336,8 @@ def run (st : St) (l : List Step) : St := l.foldl step st
 def Step.touches (j : Nat) : Step → Bool
   | .mutate i _ => i = j
   | .listMut i _ => i = j
+  | .compMember i _ _ => i = j
+  | .compMetaSet i _ _ => i = j
   | _ => false
 
 /-- Separated, and no object listed twice. -/
@@ -365,12 +466,77 @@ theorem step_good (st : St) (g : Good st) (s : Step) :
         simp only [Step.touches, decide_eq_false_iff_not] at ht
         exact hp.2 b (List.mem_of_getElem? hj) (index_ne nd hc hj ht)
       · exact stay
+  | weaNew loc tags ap dts dni dhi cont =>
+    simp only [step]
+    split
+    · rename_i h' r e
+      have hp := C14_wea_new inv e
+      exact ⟨⟨hp.1, nodup_append_fresh inv nd hp.2.2⟩, ⟨[r], rfl⟩,
+        fun j b hj _ => hp.2.1 b (List.mem_of_getElem? hj)⟩
+    · exact stay
+  | weaDup i =>
+    simp only [step]
+    split
+    · exact stay
+    · split
+      · rename_i h' r e
+        have hp := C14_wea_duplicate inv e
+        exact ⟨⟨hp.1, nodup_append_fresh inv nd hp.2.2⟩, ⟨[r], rfl⟩,
+          fun j b hj _ => hp.2.1 b (List.mem_of_getElem? hj)⟩
+      · exact stay
+  | weaFilter i op =>
+    simp only [step]
+    split
+    · exact stay
+    · split
+      · rename_i h' r e
+        have hp := C14_wea_filter inv e
+        exact ⟨⟨hp.1, nodup_append_fresh inv nd hp.2.2⟩, ⟨[r], rfl⟩,
+          fun j b hj _ => hp.2.1 b (List.mem_of_getElem? hj)⟩
+      · exact stay
+  | weaDerived i dt sh vals =>
+    simp only [step]
+    split
+    · exact stay
+    · split
+      · rename_i h' r e
+        have hp := C14_wea_derived inv e
+        exact ⟨⟨hp.1, nodup_append_fresh inv nd hp.2.2⟩, ⟨[r], rfl⟩,
+          fun j b hj _ => hp.2.1 b (List.mem_of_getElem? hj)⟩
+      · exact stay
+  | compMember i k op =>
+    simp only [step]
+    split
+    · exact stay
+    · rename_i c hc
+      have hcl : c ∈ st.live := List.mem_of_getElem? hc
+      split
+      · rename_i h' e
+        have hp := C14_frame_member inv hcl e
+        refine ⟨⟨hp.1, nd⟩, ⟨[], by simp⟩, fun j b hj ht => ?_⟩
+        simp only [Step.touches, decide_eq_false_iff_not] at ht
+        exact hp.2 b (List.mem_of_getElem? hj) (index_ne nd hc hj ht)
+      · exact stay
+  | compMetaSet i k v =>
+    simp only [step]
+    split
+    · exact stay
+    · rename_i c hc
+      have hcl : c ∈ st.live := List.mem_of_getElem? hc
+      split
+      · rename_i h' e
+        have hp := C14_frame_comp_metadata inv hcl e
+        refine ⟨⟨hp.1, nd⟩, ⟨[], by simp⟩, fun j b hj ht => ?_⟩
+        simp only [Step.touches, decide_eq_false_iff_not] at ht
+        exact hp.2 b (List.mem_of_getElem? hj) (index_ne nd hc hj ht)
+      · exact stay
 
 /-- **Non-interference for every history.**  Start from separated live objects (e.g. nothing at all).
     Run ANY sequence – of any length – of steps of the fixed code: building sources (from literals or
     from a list the caller holds), deriving operations, WindRose constructions, mutators of collections,
-    the caller creating and editing his own lists and argument lists; each step addressed to any live
-    object (sources or earlier results).  Then (1) the live objects are still separated, and (2) every
+    the caller creating and editing his own lists and argument lists, Wea constructions (`from_dict`,
+    `duplicate`, `filter_by_*`), collections derived from a Wea, mutators applied to a Wea's collections
+    or to its metadata; each step addressed to any live object (sources or earlier results).  Then (1) the live objects are still separated, and (2) every
     object that was live at the start and was never itself edited in place reports exactly what it
     reported at the start – whatever was derived from it and whatever was done to the derived objects,
     and vice versa (apply the theorem from the state in which the derived object appeared).  For a list
